@@ -60,16 +60,16 @@ def _ball(ctx, c, e):
             return
         ref = exact * s
         tol = 4e-16 * max(np.max(np.abs(ref)), rad * s, 0.0) + 0.0
-        if y.shape != ref.shape or np.max(np.abs(y - ref)) > tol + 1e-300:
+        if y.shape != ref.shape or not np.all(np.isfinite(y)) or np.max(np.abs(y - ref)) > tol + 1e-300:
             ctx.violation(f"ball:prox:{'inside' if e['inside'] else 'outside'}" + (":tiny" if k <= -40 else ""),
                           f"Sphere({mu}).prox(x={(x*s).tolist()}, z={c['z']*s}) = {y.tolist()}, exact projection {ref.tolist()}", {"case": c, "scale": k})
             return
         # the clauses of the property on the returned value itself
-        if np.linalg.norm(y) > rad * s * (1 + 1e-15) + 1e-300:
+        if not (np.linalg.norm(y) <= rad * s * (1 + 1e-15) + 1e-300):
             ctx.violation("ball:feasible", f"projection outside the ball: |y| = {np.linalg.norm(y)!r} > {rad*s!r}", {"case": c, "scale": k})
             return
         y2 = np.asarray(law.prox(y, c["z"] * s))
-        if np.max(np.abs(y2 - y)) > 4e-16 * max(np.max(np.abs(y)), 1e-300):
+        if not np.all(np.isfinite(y2)) or np.max(np.abs(y2 - y)) > 4e-16 * max(np.max(np.abs(y)), 1e-300):
             ctx.violation("ball:idempotent", f"prox(prox(x)) != prox(x) for x={(x*s).tolist()}", {"case": c, "scale": k})
             return
 
@@ -107,7 +107,7 @@ def _jac(ctx, c, e):
         ctx.violation(key + ":active_set", f"active_set true although |rho x - y| = {na} > radius {rad}", {"case": c}); return False
     for name, got, exp in (("residual", res, exp_res), ("Jx", Jx, exp_Jx), ("Jy", Jy, exp_Jy), ("Jz", Jz, exp_Jz)):
         got = np.asarray(got, dtype=float)
-        if got.shape != np.shape(exp) or np.max(np.abs(got - exp)) > 1e-13 * (1 + np.max(np.abs(exp))):
+        if got.shape != np.shape(exp) or not np.all(np.isfinite(got)) or np.max(np.abs(got - exp)) > 1e-13 * (1 + np.max(np.abs(exp))):
             ctx.violation(f"{key}:{name}", f"Sphere({mu}) {name} at a={a.tolist()}, rho={rho}, z={z[0]}: {got.tolist()}, exact {np.asarray(exp).tolist()}", {"case": c})
             return False
     return True
